@@ -66,6 +66,7 @@ type vfC05SPlan struct {
 func vfC05SGen(rt *rapid.T) vfC05SPlan {
 	p := vfC05SPlan{Compaction: sched.Uniform(rt, "compaction", 0, 3) > 0}
 	n := sched.Uniform(rt, "nprod", 1, vk.Pick(10, 20))
+	termShare := vk.Pick(4, 2) // per cent per op, for each of EOF / error (longer op lists: rarer, so that the terminal does not cut most of them short)
 	for i := 0; i < n; i++ {
 		var op vfC05SOp
 		switch k := sched.Uniform(rt, "kind", 0, 99); {
@@ -79,7 +80,7 @@ func vfC05SGen(rt *rapid.T) vfC05SPlan {
 			default:
 				op.N = sched.Uniform(rt, "size", 1, 120)
 			}
-		case k < 92:
+		case k < 100-2*termShare:
 			op.K = vfC05SKBurst
 			if sched.Uniform(rt, "burst_kind", 0, 3) == 0 {
 				op.N = sched.Uniform(rt, "burst_small", 1, 100)
@@ -91,7 +92,7 @@ func vfC05SGen(rt *rapid.T) vfC05SPlan {
 				op.Y = sched.Uniform(rt, "every", 50, 800)
 			}
 			op.W = sched.Uniform(rt, "near", 0, 3)
-		case k < 96:
+		case k < 100-termShare:
 			op.K = vfC05SKEOF
 		default:
 			op.K = vfC05SKErr
